@@ -61,6 +61,12 @@ def build_tree(rng, root, prefix):
             r = rng.random()
             if r < 0.35:      # source + bytecode
                 names += [stem + '.py', stem + rng.choice(['.pyc', '.pyo'])]
+                if rng.random() < 0.35:
+                    # ... and a side file of the source whose name sorts
+                    # between the two (x.py < x.py.orig < x.pyc)
+                    names.append(stem + '.py' + rng.choice(
+                        ['.orig', ',cover', '-old', '.in', '_bak', 'b', '~',
+                         '.rej', '0']))
             elif r < 0.6:     # orphan bytecode
                 names += [stem + rng.choice(['.pyc', '.pyo'])]
             elif r < 0.8:     # source only
